@@ -123,7 +123,7 @@ def get_capacity(capacity, offset, skip_bytes):
     # To store more than 254 byte ndef we must use three length bytes,
     # otherwise it's only one. But only if the capacity is more than
     # 256 the three length byte format will provide a higher value.
-    capacity -= 4 if capacity > 256 else 2
+    capacity = max(min(capacity - 2, 254), capacity - 4)
     return capacity
 
 
